@@ -68,6 +68,8 @@ S0(P) == [ pc   |-> [a \in Actors(P) |-> 1],
            arl  |-> [a \in Actors(P) |-> <<>>],        \* callbacks the next incarnation inherits (list of the registering one)
            ark  |-> [a \in Actors(P) |-> -1],          \* kill time / daemon flag recorded with the start record
            ard  |-> [a \in Actors(P) |-> FALSE],
+           inc  |-> [a \in Actors(P) |-> 0],           \* number of restarts of the slot (an actor handle designates one incarnation)
+           tgi  |-> [a \in Actors(P) |-> 0],           \* trace mode: incarnation of the target when a issued its pending operation
            reg  |-> [a \in Actors(P) |-> FALSE],       \* the current incarnation is the one whose callback list the record shares
            hoff |-> [a \in Actors(P) |-> FALSE],       \* host of actor a (one host per actor) is off
            loff |-> FALSE,                             \* the link is off
@@ -298,7 +300,13 @@ Restart(P, s, o) ==
   [s EXCEPT !.ph[o] = IF NOps(P, o) = 0 THEN "done" ELSE "run", !.pc[o] = 1, !.sub[o] = 1, !.res[o] = "none", !.pres[o] = "none",
             !.blk[o] = NoBlk, !.tmr[o] = -1, !.hnd[o] = <<>>, !.cur[o] = 0, !.rval[o] = 0,
             !.oe[o] = s.arl[o], !.oex[o] = <<>>, !.oerun[o] = <<>>,
-            !.dmn[o] = s.ard[o], !.kt[o] = IF s.ark[o] > s.now THEN s.ark[o] ELSE -1, !.aron[o] = TRUE, !.susp[o] = FALSE]
+            !.dmn[o] = s.ard[o], !.kt[o] = IF s.ark[o] > s.now THEN s.ark[o] ELSE -1, !.aron[o] = TRUE, !.susp[o] = FALSE,
+            !.inc[o] = @ + 1]
+\* An operation on another actor designates the incarnation that existed when the caller obtained its handle (trace mode: when it
+\* issued the operation). If the target was restarted in between (same scheduling round), the operation concerns the previous,
+\* dead incarnation: a join returns at once, kill / suspend / resume do nothing.
+HasTarget(op) == op.op \in {"join", "kill", "suspend", "resume"}
+StaleTarget(P, s, a) == s.ph[a] = "issued" /\ HasTarget(Cur(P, s, a)) /\ s.tgi[a] # s.inc[Cur(P, s, a).o]
 
 Keep(s, a, r) == [s EXCEPT !.hnd[a] = Append(@, [c |-> s.cur[a], r |-> r, seen |-> FALSE])]
 \* Once an actor has observed the completion of one of its handles (wait returned, test said true), the s4u object is
@@ -323,7 +331,8 @@ NSubP(P, op) == IF P.gran = "mc" THEN (IF op.op \in {"cvwait", "cvwaitfor"} THEN
 HandleRun(P, s, a) ==
 
   LET op == Cur(P, s, a)   k == op.op   o == op.o IN
-  CASE k = "lock"    -> IF s.own[o] = a /\ ~P.rec[o] THEN Undef(s, a) ELSE LockFor(P, s, a, o, "ok")
+  CASE StaleTarget(P, s, a) -> Answer(s, a, "ok")
+    [] k = "lock"    -> IF s.own[o] = a /\ ~P.rec[o] THEN Undef(s, a) ELSE LockFor(P, s, a, o, "ok")
     [] k = "trylock" ->
          IF s.own[o] = 0 THEN Answer([s EXCEPT !.own[o] = a, !.dep[o] = 1], a, "true")
          ELSE IF s.own[o] = a /\ P.rec[o] THEN Answer([s EXCEPT !.dep[o] = @ + 1], a, "true")
